@@ -385,8 +385,14 @@ class Base:
                 return
         self.ok = True
 
-    def exact(self, what, rows):
+    def exact(self, what, rows, unweighted=False):
         """(exact sums, sums of absolute values, number of multiplications per term) of the vector `what` over rows"""
+        if unweighted:
+            saved, self.w = self.w, [Fraction(1)] * self.n
+            try:
+                return self.exact(what, rows)
+            finally:
+                self.w = saved
         if what == 'f':
             terms = [[self.w[r] * self.f[r]] for r in rows]
             m = 1
@@ -525,6 +531,19 @@ def check_table(ctx, c, r, st_ll, st_part, part_items):
             st_ll.disagree(witness(c, row=i), to_float(base.f[i]), to_float(base.rf[i]),
                            'disaggregated evaluator and simulate report different log likelihoods for one row')
             break
+    # the one-expression evaluator, aggregated (no weight): the same sums
+    agg = val(r['rows']).get('agg')
+    if agg is not None:
+        st_ll.record({'id': c.get('id'), 'n': n, 'what': 'one-expression evaluator, aggregated', 'h': hash_cols(c)}, nontrivial=n >= 2)
+        for what, name in (('f', 'function'), ('g', 'gradient'), ('h', 'hessian'), ('b', 'bhhh')):
+            exv, abv, m = base.exact(what, range(n), unweighted=True)
+            obs = Fl([agg['f']] if what == 'f' else agg[what])
+            j = cmp_vec(obs, exv, abv, n, m)
+            if j is not None:
+                ctx.violation(f'C04/ll/evaluator/{what}', f'Expression.get_value_and_derivatives(aggregation=True): {name} entry {j} is not the sum '
+                              'of the per-row values it reports with aggregation=False', witness(c), [to_float(v) for v in exv], agg[what], HOW)
+                break
+        part_items.append((c, n, 4, {'f0': {'ok': True, 'v': agg['f']}, 'd': {'ok': True, 'v': agg}, 'unweighted': True}, base))
     for e in evs:
         st_ll.record({'id': c.get('id'), 'n': n, 'T': e['T'], 'w': c['weight'], 'm': c['model'], 'what': 'threads',
                       'h': hash_cols(c)}, nontrivial=n >= 2)
@@ -599,7 +618,8 @@ def naive_bounds(n, T):
 def stream_partition(ctx, items):
     st = ctx.stream('partition_observed',
                     'the engine total (function value and every gradient entry) re-computed in IEEE double arithmetic under the '
-                    'MODEL partition blocks n T (evaluated in Coq) must be the very double the engine returned; '
+                    'MODEL partition blocks n T (evaluated in Coq) must be the very double the engine returned (BIOGEME object with T threads; '
+                    'one-expression evaluator, aggregated, always 4 threads); '
                     'non-trivial = the same re-computation under a single block or under floor-sized blocks gives another double '
                     '(so the agreement discriminates between partitions); distinct by (table, weights, T)')
     pairs = sorted({(n, T) for (_, n, T, _, _) in items})
@@ -639,7 +659,7 @@ def stream_partition(ctx, items):
             st.disagree({'n': n, 'T': T}, 'a partition of the rows', bounds, 'model blocks are not a partition (contradicts T04a)')
             continue
         w = [to_float(x) for x in base.w]
-        weighted = bool(c.get('weight'))
+        weighted = bool(c.get('weight')) and not e.get('unweighted')
         vecs = [('f', [to_float(x) for x in base.f], to_float(F(val(e['f0']))))]
         dg = Fl(val(e['d'])['g'])
         for k in range(base.k):
@@ -654,7 +674,7 @@ def stream_partition(ctx, items):
                 st.disagree(witness(c, T=T, quantity=name), {'blocks': bounds, 'recomputed': mine.hex()}, engine_v.hex(),
                             'engine total is not the double obtained with the modelled partition')
                 break
-        st.record({'n': n, 'T': T, 'h': hash_cols(c)}, nontrivial=nontriv)
+        st.record({'n': n, 'T': T, 'h': hash_cols(c), 'evaluator': bool(e.get('unweighted'))}, nontrivial=nontriv)
     if st.disagreements:
         ctx.stream_broken('partition_observed', f'{len(st.disagreements)} disagreements, first: '
                           + json.dumps(st.disagreements[0], default=str)[:1200])
